@@ -404,7 +404,7 @@ class Check(core.PropertyCheck):
     )
 
     BASE = {"Ids": frozenset({1, 2}), "Qs": frozenset({"A", "B"}), "BadKinds": frozenset({"bad", "zero"}),
-            "Policies": frozenset({"none", "respond", "error"}), "Streams": frozenset({("q",)}), "SWhole": True}
+            "Policies": frozenset({"none", "respond", "error"}), "Streams": frozenset({("q",)}), "SWhole": True, "MaxSeg": 16}
 
     def mon_constants(self, tier):
         return {}
@@ -424,7 +424,7 @@ class Check(core.PropertyCheck):
                     "MaxQ": 2 if q else 3, "MaxR": 1 if q else 2, "MaxBad": 1},
             "tcp": {**B, "Mode": "flow", "Trs": frozenset({"tcp"}), "Ups": frozenset({True}), "MaxQ": 2, "MaxR": 1,
                     "MaxBad": 1, "BadKinds": frozenset({"zero"}), "Qs": frozenset({"A"}) if q else frozenset({"A", "B"}),
-                    "Policies": frozenset({"none"}) if q else frozenset({"none", "respond"})},
+                    "Policies": frozenset({"none"}) if q else frozenset({"none", "respond"}), "MaxSeg": 3 if q else 16},
             "seg": {**B, "Mode": "seg", "Ids": frozenset({1, 2, 3}), "Trs": frozenset({"tcp"}), "Ups": frozenset({True}),
                     "MaxQ": 0, "MaxR": 0,
                     "MaxBad": 0, "Streams": streams, "SWhole": q},
